@@ -33,8 +33,9 @@ Drop(s, k) == SubSeq(s, k + 1, Len(s))
 Last(s) == s[Len(s)]
 RECURSIVE SumBy(_, _)
 SumBy(s, f) == IF s = <<>> THEN 0 ELSE s[1][f] + SumBy(Tail(s), f)
-SortedSeq(S) == CHOOSE s \in [1..Cardinality(S) -> S] :
-                  \A a, b \in 1..Cardinality(S) : a < b => s[a] < s[b]
+RECURSIVE SortedSeq(_)
+SortedSeq(S) == IF S = {} THEN <<>>
+                ELSE LET m == CHOOSE x \in S : \A y \in S : x <= y IN <<m>> \o SortedSeq(S \ {m})
 
 ----------------------------------------------------------------------------
 (* Records                                                                    *)
